@@ -118,6 +118,23 @@ def run(chk):
             cq.fl(1e-9 * max(1.0, float(np.abs(X).max())) ** 2), ";\n  ".join(obs_t)))
         if i < 2:
             chk.sample({"C": C, "D": D, "ops": names})
+    # MAP adaptation with weight/variance updating on NumPy input: no stale log-weight or normaliser afterwards
+    for j in range(6 if chk.tier == "quick" else 40):
+        C, D = r.choice([2, 3]), r.choice([1, 2])
+        w, mu, var, s = gen.gen_gmm(r, C, D, "unit")
+        prior = make_gmm(w, mu, var)
+        X = gen.sample_from(r, gen.simplex(r, C), mu + 0.5 * np.sqrt(var), var, 9)
+        mm = GMMMachine(n_gaussians=C, trainer="map", ubm=prior, max_fitting_steps=r.choice([1, 2]), update_weights=True,
+                        update_variances=bool(j % 2), map_relevance_factor=r.choice([0.5, 4.0]))
+        mm.fit(X)
+        fresh = GMMMachine(n_gaussians=C, weights=np.array(mm.weights))
+        fresh.means = np.array(mm.means)
+        fresh.variance_thresholds = 0.0
+        fresh.variances = np.array(mm.variances)
+        chk.count(1, key=("map-fit", bool(j % 2)))
+        if not np.allclose(np.asarray(mm.log_likelihood(X)), np.asarray(fresh.log_likelihood(X)), rtol=1e-12, atol=1e-12):
+            chk.fail("after MAP training (update_weights=True) the machine scores differently from a fresh machine with the same visible parameters",
+                     {"w": hexlist(w), "mu": hexlist(mu), "var": hexlist(var), "X": hexlist(X), "shape": [C, D]})
     try:
         os.rmdir(tmpd)
     except OSError:
